@@ -23,7 +23,7 @@ class BoundHit(BaseException):
         self.what = what
 
 
-class HarnessError(Exception):
+class HarnessError(BaseException):
     """The machinery itself is wrong or inconclusive (never a verdict)."""
 
 
@@ -47,6 +47,12 @@ class Sym:
 
     def __repr__(self):
         return '<%s %s>' % (type(self).__name__, self.e)
+
+    def __str__(self):
+        raise HarnessError('str() of a symbolic value in native code: %r' % (self,))
+
+    def __format__(self, spec):
+        raise HarnessError('format() of a symbolic value in native code: %r' % (self,))
 
     def __hash__(self):
         raise HarnessError('symbolic value hashed (use SymDict/SymSet): %r' % (self,))
@@ -789,9 +795,10 @@ class Engine:
                 for n, c in consts.items():
                     if n not in vals:
                         vals[n] = m.eval(c, model_completion=True)
-            self._path_zmodel = m
             if not any(term_symbols(a)[1] for a in self.pc):
                 self.mvals = vals
+            elif not isinstance(m, _DictModel):
+                self._path_zmodel = m
             return vals
         return self.mvals
 
